@@ -1,4 +1,5 @@
 import DrummerVerif.Lemmas.C16P
+import DrummerVerif.Lemmas.C16D
 /-!
 # C16 — the on-disk test state machine is crash-consistent at every crash point (pointer protocol)
 
@@ -58,6 +59,31 @@ theorem pointer_protocol_crash_safe :
     (openAfter (crash (List.foldl step s (List.take k (recoverSeq d old)))) = OpenRes.newRun ∨
     ∃ x, openAfter (crash (List.foldl step s (List.take k (recoverSeq d old)))) = OpenRes.reopen x) :=
   @_root_.DiskKV.pointer_protocol_crash_safe
+
+theorem stable_directory_reopens :
+    ∀ (s : FS) (d : Nat), Stable s d → openAfter (crash s) = OpenRes.reopen d :=
+  @_root_.DiskKV.stable_reopens
+
+theorem first_open_leaves_directory_stable :
+    ∀ (d : Nat), Stable (List.foldl step { } (fixedOpenNew d)) d :=
+  @_root_.DiskKV.stable_first_open
+
+theorem crash_keeps_directory_stable :
+    ∀ (s : FS) (d : Nat), Stable s d → Stable (crash s) d :=
+  @_root_.DiskKV.stable_crash
+
+theorem recovery_switch_is_atomic_under_crash :
+    ∀ (s : FS) (d old d0 : Nat),
+      d ≠ old →
+        Stable s d0 →
+          ∀ (k : Nat),
+            (Stable (crash (recState s d old k)) d0 ∨ Stable (crash (recState s d old k)) d) ∧
+              (8 ≤ k → Stable (crash (recState s d old k)) d) :=
+  @_root_.DiskKV.stable_recover_crash
+
+theorem completed_recovery_is_stable :
+    ∀ (s : FS) (d old d0 : Nat), d ≠ old → Stable s d0 → Stable (recState s d old 10) d :=
+  @_root_.DiskKV.stable_recover_full
 
 end C16
 end DiskKV
